@@ -105,6 +105,7 @@ def build_all(segs, num, degree):
             curve = pynurbs.Curve(knots, points)
             return JC.from_full_curve(curve)
         out["from_full_curve"] = full
+    out["from_ctrlpoints(same description again)"] = lambda: JC.from_ctrlpoints(ctrl)
     return out
 
 
@@ -147,6 +148,13 @@ def malformed(case, rng, segs, num):
         ("from_ctrlpoints(open chain, gap %.1e at junction %d/%d)" % (gap, k, len(ctrl)), lambda: JC.from_ctrlpoints(broken)),
         ("from_segments(open chain, gap %.1e at junction %d/%d)" % (gap, k, len(ctrl)), lambda: JC.from_segments([shapepy.PlanarCurve(s) for s in broken])),
     ]
+    # the same segment objects offered again after the rejection: still an open chain
+    pieces, exc = call(lambda: [shapepy.PlanarCurve(s) for s in broken])
+    if exc is None:
+        for attempt in (1, 2, 3):
+            tests.append(("from_segments(the same open chain of segment objects, attempt %d, gap %.1e at junction %d/%d)" % (
+                attempt, gap, k, len(ctrl)), lambda: JC.from_segments(pieces)))
+        tests.append(("from_ctrlpoints(open chain, second attempt with the same lists)", lambda: JC.from_ctrlpoints(broken)))
     bad_args = ["abc", None, 5, 2.5, [1, 2, 3], [[1, 2], "x"], {"a": 1}]
     for b in rng.sample(bad_args, 3):
         tests.append(("from_vertices(%r)" % (b,), lambda b=b: JC.from_vertices(b)))
@@ -178,6 +186,15 @@ def case(ctx):
     builders = build_all(segs, num, degree)
     built = {}
     for name, fn in builders.items():
+        if name == "from_ctrlpoints(same description again)" and "from_ctrlpoints" in built:
+            # the description object handed to the first call is used a second time after the first
+            # curve was transformed in place: it still describes the same curve
+            first = built.pop("from_ctrlpoints")
+            shift = (3, 2) if exact else (0.75 * L, -1.25 * L)
+            call(first.move, shift)
+            if rng.random() < 0.5:
+                call(first.scale, 2, 3)
+            case.count("constructors:description-reused-after-move")
         obj, exc = call(fn)
         if exc is not None:
             case.violate("%s raised %s for a valid closed chain" % (name, exc_text(exc)), constructor=name)
